@@ -408,6 +408,16 @@ pub fn session_item(item: &Value) -> Value {
                 });
                 sent_notifs += 1;
             }
+            "save" => {
+                // textDocument/didSave: no hooks fire, nothing is expected to change
+                let file = jstr(st, "file");
+                let msg = json!({"jsonrpc": "2.0", "method": "textDocument/didSave", "params": {"textDocument": {"uri": uri_of(&dir, file)}}});
+                rt.block_on(async {
+                    let mut w = cli_w.lock().await;
+                    w.write_all(&frame(&msg)).await.unwrap();
+                    w.flush().await.unwrap();
+                });
+            }
             "request" => {
                 let rid = next_req;
                 next_req += 1;
